@@ -250,4 +250,352 @@ theorem halted_cases (c : HCfg) (h : Heap) (root : Obj) (s : HSt) (hs : hstep c 
       simp only [he, hst] at hs
       repeat (first | contradiction | split at hs)
 
+/-! ## heap level: every container is entered once and exited once -/
+
+def enterIds : List Ev → List Nat
+  | [] => []
+  | .enter _ _ (.ref id) true :: r => id :: enterIds r
+  | _ :: r => enterIds r
+
+def exitIds : List Ev → List Nat
+  | [] => []
+  | .exit id :: r => id :: exitIds r
+  | _ :: r => exitIds r
+
+def frameIds : List HFrame → List Nat
+  | [] => []
+  | .exit _ old _ _ :: r => old :: frameIds r
+  | _ :: r => frameIds r
+
+theorem enterIds_append (a b : List Ev) : enterIds (a ++ b) = enterIds a ++ enterIds b := by
+  induction a with
+  | nil => rfl
+  | cons e r ih =>
+    cases e with
+    | enter p k o t =>
+      cases o with
+      | atom a => simpa [enterIds] using ih
+      | ref id => cases t <;> simp [enterIds, ih]
+    | exit id => simpa [enterIds] using ih
+    | visit p k s v => simpa [enterIds] using ih
+
+theorem exitIds_append (a b : List Ev) : exitIds (a ++ b) = exitIds a ++ exitIds b := by
+  induction a with
+  | nil => rfl
+  | cons e r ih => cases e <;> simp [exitIds, ih]
+
+theorem frameIds_append (a b : List HFrame) : frameIds (a ++ b) = frameIds a ++ frameIds b := by
+  induction a with
+  | nil => rfl
+  | cons e r ih => cases e <;> simp [frameIds, ih]
+
+theorem frameIds_itemFrames (l : List (Key × Obj)) : frameIds (itemFrames l) = [] := by
+  induction l with
+  | nil => rfl
+  | cons x r ih => simpa [itemFrames, frameIds] using ih
+
+@[simp] theorem finishItem_trace (c : HCfg) (s : HSt) (rest : List HFrame) (k : Key) (src val : Obj) :
+    (finishItem c s rest k src val).trace = s.trace ++ [.visit s.path k src val] := by
+  unfold finishItem; split <;> (try split) <;> simp
+
+structure OInv (s : HSt) : Prop where
+  nodup : (enterIds s.trace).Nodup
+  registered : ∀ id ∈ enterIds s.trace, lookup id s.reg ≠ none
+  perm : s.err = none → (exitIds s.trace ++ frameIds s.stack).Perm (enterIds s.trace)
+  exitsNodup : (exitIds s.trace).Nodup
+  exitsSub : ∀ id ∈ exitIds s.trace, id ∈ enterIds s.trace
+
+theorem OInv.mk' (s : HSt) (hnd : (enterIds s.trace).Nodup)
+    (hreg : ∀ id ∈ enterIds s.trace, lookup id s.reg ≠ none)
+    (hp : (exitIds s.trace ++ frameIds s.stack).Perm (enterIds s.trace)) : OInv s :=
+  ⟨hnd, hreg, fun _ => hp, (List.nodup_append.1 (hp.nodup_iff.2 hnd)).1,
+   fun _ hid => hp.subset (List.mem_append_left _ hid)⟩
+
+theorem lookup_cons_ne_none {id j : Nat} {o : Obj} {r : List (Nat × Obj)}
+    (h : lookup id r ≠ none) : lookup id ((j, o) :: r) ≠ none := by
+  simp only [lookup]; split <;> simp [h]
+
+theorem OInv_init (root : Obj) : OInv (hinit root) := by
+  constructor <;> simp [hinit, enterIds, exitIds, frameIds]
+
+theorem OInv_step (c : HCfg) (h : Heap) (root : Obj) (s s' : HSt)
+    (hi : OInv s) (hs : hstep c h root s = some s') : OInv s' := by
+  obtain ⟨hnd, hreg, hperm, hen, hes⟩ := hi
+  unfold hstep at hs
+  split at hs
+  · simp at hs
+  · rename_i herr
+    have hperm := hperm herr
+    split at hs
+    · simp at hs
+    · rename_i k old new kd rest hst
+      rw [hst] at hperm
+      simp only [frameIds] at hperm
+      split at hs
+      · injection hs with hs; subst hs
+        exact ⟨hnd, hreg, by intro he; simp at he, hen, hes⟩
+      · split at hs
+        · injection hs with hs; subst hs
+          refine OInv.mk' _ ?_ ?_ ?_
+          · simpa [enterIds_append, enterIds] using hnd
+          · intro id hid
+            simp only [enterIds_append, enterIds, List.append_nil] at hid
+            exact lookup_cons_ne_none (hreg id hid)
+          · simpa [enterIds_append, exitIds_append, enterIds, exitIds] using hperm
+        · injection hs with hs; subst hs
+          refine OInv.mk' _ ?_ ?_ ?_
+          · simpa [enterIds_append, enterIds] using hnd
+          · intro id hid
+            simp only [finishItem_trace, enterIds_append, enterIds, List.append_nil] at hid
+            simp only [finishItem_reg]
+            exact lookup_cons_ne_none (hreg id hid)
+          · simpa [enterIds_append, exitIds_append, enterIds, exitIds] using hperm
+    · rename_i k o rest hst
+      rw [hst] at hperm
+      simp only [frameIds] at hperm
+      split at hs
+      · injection hs with hs; subst hs
+        refine OInv.mk' _ ?_ ?_ ?_
+        · simpa [enterIds_append, enterIds] using hnd
+        · intro id hid
+          simp only [finishItem_trace, enterIds_append, enterIds, List.append_nil] at hid
+          simpa using hreg id hid
+        · simpa [enterIds_append, exitIds_append, enterIds, exitIds] using hperm
+      · rename_i id
+        split at hs
+        · injection hs with hs; subst hs
+          refine OInv.mk' _ ?_ ?_ ?_
+          · simpa [enterIds_append, enterIds] using hnd
+          · intro id hid
+            simp only [finishItem_trace, enterIds_append, enterIds, List.append_nil] at hid
+            simpa using hreg id hid
+          · simpa [enterIds_append, exitIds_append, enterIds, exitIds] using hperm
+        · rename_i hlk
+          split at hs
+          · injection hs with hs; subst hs
+            refine OInv.mk' _ ?_ ?_ ?_
+            · simpa [enterIds_append, enterIds] using hnd
+            · intro id hid
+              simp only [finishItem_trace, enterIds_append, enterIds, List.append_nil] at hid
+              simpa using hreg id hid
+            · simpa [enterIds_append, exitIds_append, enterIds, exitIds] using hperm
+          · rename_i nd hnd'
+            injection hs with hs; subst hs
+            have hfresh : id ∉ enterIds s.trace := fun hm => hreg id hm hlk
+            refine OInv.mk' _ ?_ ?_ ?_
+            · simp only [enterIds_append, enterIds]
+              exact List.nodup_append.2 ⟨hnd, by simp, by
+                intro a ha b hb; simp at hb; subst hb; intro hab; subst hab; exact hfresh ha⟩
+            · intro id' hid
+              simp only [enterIds_append, enterIds, List.mem_append, List.mem_singleton] at hid
+              rcases hid with hid | hid
+              · exact lookup_cons_ne_none (hreg id' hid)
+              · subst hid; simp [lookup]
+            · simp only [enterIds_append, exitIds_append, enterIds, exitIds, List.append_nil,
+                frameIds_append, frameIds_itemFrames, frameIds, List.nil_append]
+              exact (List.perm_middle).trans ((List.Perm.cons id hperm).trans
+                (List.perm_append_singleton id _).symm)
+
+theorem OInv_run (c : HCfg) (h : Heap) (root : Obj) (n : Nat) (s : HSt) (hi : OInv s) :
+    OInv (hrun c h root n s) := by
+  induction n generalizing s with
+  | zero => exact hi
+  | succ n ih =>
+    simp only [hrun]
+    cases hs : hstep c h root s with
+    | none => exact hi
+    | some s' => exact ih s' (OInv_step c h root s s' hi hs)
+
+theorem OInv_final (c : HCfg) (h : Heap) (root : Obj) : OInv (hfinal c h root) :=
+  OInv_run c h root _ _ (OInv_init root)
+
+/-! ## heap level: a rebuilt object stays shared -/
+
+/-- the events after the (first) exit of container `id` -/
+def afterExit (id : Nat) : List Ev → List Ev
+  | [] => []
+  | .exit j :: r => if j = id then r else afterExit id r
+  | _ :: r => afterExit id r
+
+theorem afterExit_append_of_mem (id : Nat) (a b : List Ev) (h : id ∈ exitIds a) :
+    afterExit id (a ++ b) = afterExit id a ++ b := by
+  induction a with
+  | nil => simp [exitIds] at h
+  | cons e r ih =>
+    cases e with
+    | exit j =>
+      by_cases hj : j = id
+      · simp [afterExit, hj]
+      · have : id ∈ exitIds r := by
+          simp only [exitIds, List.mem_cons] at h
+          rcases h with h | h
+          · exact absurd h.symm hj
+          · exact h
+        simp [afterExit, hj, ih this]
+    | enter p k o t => simpa [afterExit] using ih (by simpa [exitIds] using h)
+    | visit p k s v => simpa [afterExit] using ih (by simpa [exitIds] using h)
+
+theorem afterExit_append_of_not_mem (id : Nat) (a b : List Ev) (h : id ∉ exitIds a) :
+    afterExit id (a ++ b) = afterExit id b := by
+  induction a with
+  | nil => rfl
+  | cons e r ih =>
+    cases e with
+    | exit j =>
+      have hj : j ≠ id := by intro hj; subst hj; simp [exitIds] at h
+      have : id ∉ exitIds r := by intro hm; exact h (by simp [exitIds, hm])
+      simp [afterExit, hj, ih this]
+    | enter p k o t => simpa [afterExit] using ih (by simpa [exitIds] using h)
+    | visit p k s v => simpa [afterExit] using ih (by simpa [exitIds] using h)
+
+theorem afterExit_nil_of_not_mem (id : Nat) (a : List Ev) (h : id ∉ exitIds a) : afterExit id a = [] := by
+  simpa [afterExit] using afterExit_append_of_not_mem id a [] h
+
+/-- every visit of a reference to `id` made after `id` was exited saw the registered rebuilt object -/
+def SharedInv (s : HSt) : Prop :=
+  ∀ id p k v, Ev.visit p k (.ref id) v ∈ afterExit id s.trace → lookup id s.reg = some v
+
+theorem lookup_cons_of_ne {id j : Nat} {o : Obj} {r : List (Nat × Obj)} (h : j ≠ id) :
+    lookup id ((j, o) :: r) = lookup id r := by
+  simp [lookup, h]
+
+theorem SharedInv_step (c : HCfg) (h : Heap) (root : Obj) (s s' : HSt)
+    (ho : OInv s) (hi : SharedInv s) (hs : hstep c h root s = some s') : SharedInv s' := by
+  have hreg := ho.registered
+  have hsub := ho.exitsSub
+  -- not registered ⇒ never exited
+  have hfresh : ∀ id, lookup id s.reg = none → id ∉ exitIds s.trace :=
+    fun id hl hm => hreg id (hsub id hm) hl
+  unfold hstep at hs
+  split at hs
+  · simp at hs
+  · rename_i herr
+    have hperm := ho.perm herr
+    have hndEF : (exitIds s.trace ++ frameIds s.stack).Nodup := hperm.nodup_iff.2 ho.nodup
+    split at hs
+    · simp at hs
+    · rename_i k old new kd rest hst
+      rw [hst] at hndEF
+      have hold : old ∉ exitIds s.trace := by
+        intro hm
+        have := (List.nodup_append.1 hndEF).2.2 old hm old (by simp [frameIds])
+        exact this rfl
+      split at hs
+      · injection hs with hs; subst hs
+        exact hi
+      · split at hs
+        · injection hs with hs; subst hs
+          intro id p k' v hm
+          simp only at hm
+          by_cases hid : old = id
+          · subst hid
+            rw [afterExit_append_of_not_mem _ _ _ hold] at hm
+            simp [afterExit] at hm
+          · rw [lookup_cons_of_ne hid]
+            by_cases hex : id ∈ exitIds s.trace
+            · rw [afterExit_append_of_mem _ _ _ hex] at hm
+              simp only [List.mem_append, List.mem_singleton] at hm
+              rcases hm with hm | hm
+              · exact hi id p k' v hm
+              · cases hm
+            · rw [afterExit_append_of_not_mem _ _ _ hex] at hm
+              simp [afterExit, hid] at hm
+        · injection hs with hs; subst hs
+          intro id p k' v hm
+          simp only [finishItem_trace, finishItem_reg] at hm ⊢
+          by_cases hid : old = id
+          · subst hid
+            rw [List.append_assoc, afterExit_append_of_not_mem _ _ _ hold] at hm
+            simp [afterExit] at hm
+            simp [lookup, hm.2.2]
+          · rw [lookup_cons_of_ne hid]
+            by_cases hex : id ∈ exitIds s.trace
+            · rw [List.append_assoc, afterExit_append_of_mem _ _ _ hex] at hm
+              simp only [List.mem_append, List.mem_cons, List.mem_nil_iff, or_false] at hm
+              rcases hm with hm | hm | hm
+              · exact hi id p k' v hm
+              · cases hm
+              · injection hm with _ _ h3 _
+                injection h3 with h3
+                exact absurd h3.symm hid
+            · rw [List.append_assoc, afterExit_append_of_not_mem _ _ _ hex] at hm
+              simp [afterExit, hid] at hm
+    · rename_i k o rest hst
+      split at hs
+      · injection hs with hs; subst hs
+        intro id p k' v hm
+        simp only [finishItem_trace, finishItem_reg] at hm ⊢
+        by_cases hex : id ∈ exitIds s.trace
+        · rw [List.append_assoc, afterExit_append_of_mem _ _ _ hex] at hm
+          simp only [List.mem_append, List.mem_cons, List.mem_nil_iff, or_false] at hm
+          rcases hm with hm | hm | hm
+          · exact hi id p k' v hm
+          · cases hm
+          · injection hm with _ _ h3 _; cases h3
+        · rw [List.append_assoc, afterExit_append_of_not_mem _ _ _ hex] at hm
+          simp [afterExit] at hm
+      · rename_i id0
+        split at hs
+        · rename_i v0 hlk
+          injection hs with hs; subst hs
+          intro id p k' v hm
+          simp only [finishItem_trace, finishItem_reg] at hm ⊢
+          by_cases hex : id ∈ exitIds s.trace
+          · rw [afterExit_append_of_mem _ _ _ hex] at hm
+            simp only [List.mem_append, List.mem_cons, List.mem_nil_iff, or_false] at hm
+            rcases hm with hm | hm
+            · exact hi id p k' v hm
+            · injection hm with _ _ h3 h4
+              injection h3 with h3
+              subst h3; subst h4; exact hlk
+          · rw [afterExit_append_of_not_mem _ _ _ hex] at hm
+            simp [afterExit] at hm
+        · rename_i hlk
+          split at hs
+          · injection hs with hs; subst hs
+            intro id p k' v hm
+            simp only [finishItem_trace, finishItem_reg] at hm ⊢
+            by_cases hex : id ∈ exitIds s.trace
+            · rw [List.append_assoc, afterExit_append_of_mem _ _ _ hex] at hm
+              simp only [List.mem_append, List.mem_cons, List.mem_nil_iff, or_false] at hm
+              rcases hm with hm | hm | hm
+              · exact hi id p k' v hm
+              · cases hm
+              · injection hm with _ _ h3 h4
+                injection h3 with h3
+                subst h3
+                exact absurd hex (hfresh _ hlk)
+            · rw [List.append_assoc, afterExit_append_of_not_mem _ _ _ hex] at hm
+              simp [afterExit] at hm
+          · rename_i nd hnd'
+            injection hs with hs; subst hs
+            intro id p k' v hm
+            simp only at hm ⊢
+            by_cases hid : id0 = id
+            · subst hid
+              rw [afterExit_append_of_not_mem _ _ _ (hfresh _ hlk)] at hm
+              simp [afterExit] at hm
+            · rw [lookup_cons_of_ne hid]
+              by_cases hex : id ∈ exitIds s.trace
+              · rw [afterExit_append_of_mem _ _ _ hex] at hm
+                simp only [List.mem_append, List.mem_singleton] at hm
+                rcases hm with hm | hm
+                · exact hi id p k' v hm
+                · cases hm
+              · rw [afterExit_append_of_not_mem _ _ _ hex] at hm
+                simp [afterExit] at hm
+
+theorem SharedInv_run (c : HCfg) (h : Heap) (root : Obj) (n : Nat) (s : HSt) (ho : OInv s)
+    (hi : SharedInv s) : SharedInv (hrun c h root n s) := by
+  induction n generalizing s with
+  | zero => exact hi
+  | succ n ih =>
+    simp only [hrun]
+    cases hs : hstep c h root s with
+    | none => exact hi
+    | some s' => exact ih s' (OInv_step c h root s s' ho hs) (SharedInv_step c h root s s' ho hi hs)
+
+theorem SharedInv_final (c : HCfg) (h : Heap) (root : Obj) : SharedInv (hfinal c h root) :=
+  SharedInv_run c h root _ _ (OInv_init root) (by intro id p k v hm; simp [hinit, afterExit] at hm)
+
 end C08
